@@ -567,7 +567,6 @@ func (dec *Decoder) Literal(ptr *string) bool {
 				// waiting for a go-ahead: skip it, so that its octets
 				// are not parsed as commands
 				io.Copy(io.Discard, lit)
-				dec.crlf = false
 			}
 			lit.cancel()
 			return dec.returnErr(err)
@@ -630,6 +629,11 @@ func (lit *LiteralReader) Size() int64 {
 }
 
 func (lit *LiteralReader) Read(b []byte) (int, error) {
+	if lit.dec != nil {
+		// The line continues after the literal: the CRLF of the literal's
+		// header was not the end of the line
+		lit.dec.crlf = false
+	}
 	n, err := lit.r.Read(b)
 	if err == io.EOF {
 		lit.cancel()
